@@ -503,7 +503,7 @@ func main() {
 	flag.Parse()
 	_, _ = nshard, replay
 	r := res.New("C17")
-	r.Rule = "both directions of a pair (netctx.Conn / connctx over net.Pipe; netctx.PacketConn over loopback UDP and over vnet sockets) driven concurrently by writer and reader workers; every operation gets a context that is live, cancelled before the call, cancelled 0-400us into the call (incl. the watcher start window), or a timeout context; the operation right after a cancelled one is a live-context probe; oracle: stream bytes received == reported-written prefixes (also partial), datagrams received = in-order duplicate-free intact subsequence of those reported written and complete under pacing, nothing reported unwritten arrives, a live-context operation never fails with a timeout/context error (no leftover deadline), a cancelled operation is not found parked 250ms after cancellation; plus a phase with two same-direction operations in flight on one stream wrapper (one being cancelled, one with a live context, which must never see a timeout); distinct = (kind, seed) cases"
+	r.Rule = "both directions of a pair (netctx.Conn / connctx over net.Pipe; netctx.PacketConn over loopback UDP and over vnet sockets) driven concurrently by writer and reader workers; every operation gets a context that is live, cancelled before the call, cancelled 0-400us into the call (incl. the watcher start window), or a timeout context; the operation right after a cancelled one is a live-context probe; oracle: stream bytes received == reported-written prefixes (also partial), datagrams received = in-order duplicate-free intact subsequence of those reported written and complete under pacing, nothing reported unwritten arrives, a live-context operation never fails with a timeout/context error (no leftover deadline), a cancelled operation is not found parked 250ms after cancellation; plus a phase with two same-direction operations in flight on one wrapper, stream and packet flavours (one being cancelled, one with a live context, which must never see a timeout); distinct = (kind, seed) cases"
 	r.Assumptions = []string{"loopback UDP and vnet do not lose datagrams while at most 8 are outstanding", "promptness is decided by inspecting the worker's goroutine state 250ms after its cancel instant, only when no operation completed for 300ms"}
 	kinds := []string{"netctx-pipe", "connctx-pipe", "netctx-udp", "netctx-vnet"}
 	n := 20
@@ -542,7 +542,7 @@ func main() {
 	// two operations of the same direction in flight on one wrapper: the earlier one is cancelled while the later one,
 	// with a live context, waits behind it (the wrappers serialise same-direction calls); the live one must not be
 	// timed out by the deadline the cancellation used
-	for _, k := range []string{"netctx-pipe", "connctx-pipe"} {
+	for _, k := range []string{"netctx-pipe", "connctx-pipe", "netctx-udp", "netctx-vnet"} {
 		for _, dir := range []string{"read", "write"} {
 			r.Eval(1)
 			r.Count("cases_same_direction_"+dir, 1)
